@@ -147,6 +147,14 @@ class Body:
         self._dbg = None
         self._defs = None
         self._dom = None
+        # names as reviewed (tables/known_names.json): when only names differ from the reviewed tree they are mapped back (see _unrename)
+        self._reviewed_names = None
+        kn = getattr(prog, "known_names", None)
+        if kn:
+            ents = kn.get(self.path)
+            now = [nm for nm, _ in raw.get("dbg", [])]
+            if ents and not any(now == e_["dbg"] for e_ in ents):
+                self._reviewed_names = ents
 
     # --- decoding --------------------------------------------------------------------------
     def _str(self, i):
@@ -279,7 +287,116 @@ class Body:
             blocks.append(Block(i, stmts, Term(k, d, line, macros), b.get("cleanup", False)))
         self._blocks = blocks
         self.raw = None  # free
+        if self._reviewed_names is not None:
+            self._unrename()
         self._inline_new_fns()
+
+    # --- names ------------------------------------------------------------------------------
+    _SPAN_RE = re.compile(r"@[^}\]]*?:\d+:\d+(: \d+:\d+)?")
+
+    def struct_hash(self):
+        """Hash of the decoded body with every user-chosen name erased (debug names, captured-variable names) and positions dropped:
+        equal for two versions of a function that differ only by renamed locals / parameters."""
+        import hashlib
+        caps = {}
+
+        def pl(p):
+            proj = []
+            for x in p.proj:
+                if x.startswith(".^"):
+                    proj.append(".^#%d" % caps.setdefault(x, len(caps)))
+                else:
+                    proj.append(x)
+            return "_%d%s" % (p.local, "".join(proj))
+
+        def ty(t):
+            return Body._SPAN_RE.sub("@", t) if isinstance(t, str) else t
+
+        def op(o):
+            if o is None:
+                return "-"
+            if o.kind == "const":
+                return "const{%s}" % ",".join("%s=%s" % (k, ty(str(v))) for k, v in sorted(o.const.items()) if k != "pbody")
+            return o.kind + " " + pl(o.place)
+
+        def val(v):
+            if isinstance(v, Operand):
+                return op(v)
+            if isinstance(v, Place):
+                return pl(v)
+            if isinstance(v, (list, tuple)):
+                return "[" + ",".join(val(x) for x in v) + "]"
+            return ty(str(v))
+
+        h = hashlib.sha256()
+        h.update(("argc=%d;" % self.argc).encode())
+        h.update(("|".join(ty(t) for t in self._local_tys)).encode())
+        for b in self._blocks:
+            for st in b.stmts:
+                h.update((pl(st.dest) + "=" + ";".join("%s:%s" % (k, val(v)) for k, v in sorted(st.rv.items())) + "\n").encode())
+            t = b.term
+            h.update((t.kind + ";".join("%s:%s" % (k, val(v)) for k, v in sorted(t.d.items())) + ("!c" if b.cleanup else "") + "\n").encode())
+        return h.hexdigest()[:24], [k[2:] for k, _ in sorted(caps.items(), key=lambda kv: kv[1])]
+
+    def _unrename(self):
+        ents = self._reviewed_names
+        hsh, caps = self.struct_hash()
+        ent = next((e_ for e_ in ents if e_["h"] == hsh and len(e_["dbg"]) == len(self._dbg) and len(e_["caps"]) == len(caps)), None)
+        if ent is None:
+            return self._unrename_params(ents[0])
+        # same structure: every name goes back to the reviewed one, by position
+        cmap = {".^" + a: ".^" + b for a, b in zip(caps, ent["caps"]) if a != b}
+        self._dbg = [(ent["dbg"][i], p) for i, (nm, p) in enumerate(self._dbg)]
+        if cmap:
+            def mp(p):
+                if any(x in cmap for x in p.proj):
+                    return Place(p.local, tuple(cmap.get(x, x) for x in p.proj), p.ty)
+                return p
+
+            def mo(o):
+                if isinstance(o, Operand) and o.kind != "const":
+                    return Operand(o.kind, mp(o.place))
+                return o
+
+            for b in self._blocks:
+                for st in b.stmts:
+                    st.dest = mp(st.dest)
+                    for k in ("a", "b"):
+                        if isinstance(st.rv.get(k), Operand):
+                            st.rv[k] = mo(st.rv[k])
+                    if isinstance(st.rv.get("p"), Place):
+                        st.rv["p"] = mp(st.rv["p"])
+                    if st.rv.get("ops") is not None:
+                        st.rv["ops"] = [mo(o) for o in st.rv["ops"]]
+                d = b.term.d
+                for k in ("a", "cond", "fp"):
+                    if isinstance(d.get(k), Operand):
+                        d[k] = mo(d[k])
+                for k in ("args", "ops"):
+                    if d.get(k) is not None:
+                        d[k] = [mo(o) for o in d[k]]
+                for k in ("d", "p"):
+                    if isinstance(d.get(k), Place):
+                        d[k] = mp(d[k])
+            self._dbg = [(nm, mp(p)) for nm, p in self._dbg]
+        self.prog.renamed.append(self.path)
+
+    def _unrename_params(self, ent):
+        """The body changed in more than names: parameters still keep their position."""
+        params = ent.get("params") or []
+        if len(params) != self.argc:
+            return
+        out = []
+        changed = False
+        for nm, p in self._dbg:
+            if p.is_local() and 1 <= p.local <= self.argc and params[p.local - 1] and nm != params[p.local - 1]:
+                out.append((params[p.local - 1], p))
+                changed = True
+            else:
+                out.append((nm, p))
+        if changed:
+            self._dbg = out
+            self.prog.renamed.append(self.path + " (parameters)")
 
     # --- inlining of functions that did not exist when the rules were reviewed --------------
     def _inline_new_fns(self):
@@ -918,6 +1035,12 @@ class Program:
         self.fns = {self.fix_path(f["path"]): f for f in d["fns"]}
         self.enums = {self.fix_path(k): v for k, v in d["enums"].items()}
         self.bodies = {}
+        self.renamed = []
+        self.known_names = None
+        kn = os.path.join(os.path.dirname(os.path.dirname(os.path.abspath(__file__))), "tables", "known_names.json")
+        if os.path.exists(kn) and not os.environ.get("VERIF_NO_RENAME"):
+            with open(kn) as f:
+                self.known_names = json.load(f).get(self.crate)
         for raw in d["bodies"]:
             if raw.get("stolen"):
                 continue
@@ -1233,8 +1356,22 @@ class Sym:
         self.body = body
         self.memo = {}
         self.inline_level = inline_level
+        self._trunc = 0
 
     def local_expr(self, l, depth=0, stack=()):
+        if l in self.memo:
+            return self.memo[l]
+        if depth > MAX_DEPTH:
+            self._trunc += 1
+            return ("var", self.body.local_name(l) or "_%d" % l)
+        t0 = self._trunc
+        e = self._local_expr(l, depth, stack)
+        if self._trunc != t0:
+            # a sub-expression was cut at the depth limit: the result depends on where the evaluation started, do not cache it
+            self.memo.pop(l, None)
+        return e
+
+    def _local_expr(self, l, depth=0, stack=()):
         b = self.body
         if l in self.memo:
             return self.memo[l]
@@ -2177,16 +2314,20 @@ class GuardIndex:
             return []
         if g.a[0] == "field" and g.a[1][0] == "var" and g.a[2].isdigit():
             return self._resolve_bool_tuple(g, depth)
-        if g.a[0] != "var":
+        if g.a[0] not in ("var", "phi"):
             return []
         body = self.body
         # find the local
-        name = g.a[1]
-        locs = []
-        if name.startswith("_") and name[1:].isdigit():
-            locs = [int(name[1:])]
+        if g.a[0] == "phi":
+            # the return slot of an inlined helper (Sym.local_expr gives it as a phi over the helper's return paths)
+            locs = [fr["ret"] for fr in getattr(body, "frames", ()) if self.sym.memo.get(fr["ret"]) == g.a]
         else:
-            locs = body.local_by_name(name)
+            name = g.a[1]
+            locs = []
+            if name.startswith("_") and name[1:].isdigit():
+                locs = [int(name[1:])]
+            else:
+                locs = body.local_by_name(name)
         if len(locs) > 1:
             locs = self._tested_local(g, locs)
         extra = []
